@@ -209,9 +209,13 @@ def run_check(modname, tier, seed, jobs=None):
             harness_errors.append({"spec": "known-finding witness", "harness_error": "could not replay %s" % wpath})
             continue
         sigs = [v["signature"] for v in vs]
+        # a listed signature is excluded from the search whether or not its witness still hits it: the witness is a recorded
+        # schedule, and any edit of the library's source (a repair elsewhere, say) renumbers the scheduling points it is
+        # expressed in.  The KNOWN-FINDING line is printed when the finding is actually observed - by the witness here, or by
+        # the search below.
+        known_sigs.append(kf["signature"])
         if kf["signature"] in sigs:
             lines.append("KNOWN-FINDING: property=%s %s" % (prop, kf["what"]))
-            known_sigs.append(kf["signature"])
             known_report.append({"signature": kf["signature"], "still_fails": True})
         else:
             known_report.append({"signature": kf["signature"], "still_fails": False})
@@ -282,6 +286,11 @@ def run_check(modname, tier, seed, jobs=None):
             cur = viols.get(v["signature"])
             if cur is None or len(canon(v["case"])) < len(canon(cur["case"])):
                 viols[v["signature"]] = v
+
+    for kf, rep in zip([k for k in known_open if os.path.join(VERIF, k["witness"]) in wres and wres[os.path.join(VERIF, k["witness"])] is not None], known_report):
+        rep["seen_in_search"] = int(excluded.get(kf["signature"], 0))
+        if not rep["still_fails"] and rep["seen_in_search"]:
+            lines.append("KNOWN-FINDING: property=%s %s" % (prop, kf["what"]))
 
     # 4. confirm each distinct violation in a fresh process, write replay
     confirmed = []
